@@ -112,6 +112,53 @@ fn decoys_impl(g: &GameState, board_variants: bool) -> Vec<GameState> {
         let p3: Vec<MBoard> = prev.iter().map(|b| remap(b, &all)).collect();
         out.push(build(!gold, moveno, step, &remap(&board, &all), &p3, status, trapped, same_hist()));
         }
+        if board_variants {
+            // D5: the same state at another move number (not part of the hash, not compared by ==)
+            {
+                let pb = piece_board_of(&board);
+                let h = Zobrist::from_piece_board(pb.piece_board(), gold, step);
+                let first = prev.first().copied().unwrap_or(board);
+                let h0 = Zobrist::from_piece_board(piece_board_of(&first).piece_board(), gold, 0);
+                let prevs: Vec<PieceBoard> = prev.iter().map(piece_board_of).collect();
+                out.push(GameState::new(gold, moveno + 3, Phase::PlayPhase(PlayPhase::new(h0, same_hist(), prevs, status, trapped)), pb, h));
+            }
+            // D6: the same board and side at another step index (3 if it is not 3, else 1)
+            {
+                let st2 = if step == 3 { 1 } else { 3 };
+                let mut pv: Vec<MBoard> = prev.clone();
+                pv.truncate(st2);
+                while pv.len() < st2 {
+                    pv.push(board);
+                }
+                out.push(build(gold, moveno, st2, &board, &pv, status, trapped, same_hist()));
+            }
+            // D7: a sibling line of the same turn: the same turn start and step count, one own piece standing one square elsewhere
+            if step >= 1 {
+                let mut sib = None;
+                'find: for i in 0..64usize {
+                    let c = board.0[i];
+                    if c == 0 || is_gold(c) != gold || strength(c) == 0 {
+                        continue;
+                    }
+                    for k in 0..4u8 {
+                        if let Some(j) = nb(i, k) {
+                            if board.0[j] == 0 && !TRAPS.contains(&j) {
+                                let mut b2 = board;
+                                b2.0[j] = c;
+                                b2.0[i] = 0;
+                                sib = Some(b2);
+                                if (i + j + moveno) % 3 == 0 {
+                                    break 'find;
+                                }
+                            }
+                        }
+                    }
+                }
+                if let Some(b2) = sib {
+                    out.push(build(gold, moveno, step, &b2, &prev, PushPullState::None, trapped, same_hist()));
+                }
+            }
+        }
         // D4: the same state with another past of the same length and the same newest entry
         if hist.len() >= 2 {
             // D4i "forgotten": nothing ever occurred twice
